@@ -317,6 +317,13 @@ func checkC01Sweep(c *Ctx) {
 		for _, a := range sweepArgs {
 			mk("(" + rv + ")(" + a + ")")
 		}
+		// the argument list re-assigns the receiver (it is bound before the arguments are evaluated)
+		for _, m := range sweepMethods {
+			for _, other := range []string{"5", `"s"`, "[1]", "{}", "null"} {
+				mk("sv = " + rv + "\n  r = sv." + m + "(sv = " + other + ")")
+				mk("sa = [" + rv + "]\n  r = sa[0]." + m + "(sa[0] = " + other + ")")
+			}
+		}
 	}
 	pool.Map(jobs, func(i int, r Result) {
 		switch r.Class {
